@@ -461,14 +461,26 @@ def _isclose(a, b, *args, **kw):
         a = _asarr(a)
     if isinstance(b, (list, tuple)):
         b = _asarr(b)
-    d = a - b
-    if is_arr(d):
-        out = np.empty(d.shape, dtype=object)
-        for i in np.ndindex(d.shape):
-            out[i] = _isclose(d[i], 0)
+    rtol = kw.get('rtol', args[0] if len(args) > 0 else sp.Rational(1, 100000))
+    atol = kw.get('atol', args[1] if len(args) > 1 else sp.Rational(1, 100000000))
+    if is_arr(a) or is_arr(b):
+        aa, bb = np.broadcast_arrays(np.asarray(a, dtype=object), np.asarray(b, dtype=object))
+        out = np.empty(aa.shape, dtype=object)
+        for i in np.ndindex(aa.shape):
+            out[i] = _isclose(aa[i], bb[i], rtol=rtol, atol=atol)
         return out
+    d = a - b
     z = is_zero(d, deep=False)
-    return True if z else sp.Eq(sp.sympify(a), sp.sympify(b))
+    if z:
+        return True
+    sa, sb = sp.sympify(a), sp.sympify(b)
+    if sa.is_number and sb.is_number and sa.is_real and sb.is_real:
+        # concrete numbers: numpy's own test |a - b| <= atol + rtol |b|
+        try:
+            return bool(sp.Abs(sa - sb) <= sp.nsimplify(atol) + sp.nsimplify(rtol) * sp.Abs(sb))
+        except TypeError:
+            pass
+    return sp.Eq(sa, sb)        # symbolic operands: the idealisation "equal up to round-off means equal"
 
 
 class ToleranceLog:
@@ -485,11 +497,11 @@ class ToleranceLog:
 
     def isclose(self, a, b, *args, **kw):
         self.items.append((a, b, kw))
-        return _isclose(a, b)
+        return _isclose(a, b, *args, **kw)
 
     def allclose(self, a, b, *args, **kw):
         self.items.append((a, b, kw))
-        return _all(_isclose(a, b))
+        return _all(_isclose(a, b, *args, **kw))
 
     def absolute_on_scaled(self, scale_free=()):
         """comparisons against exact zero whose other operand depends on a real-valued (non-integer) symbol not listed as scale-free"""
@@ -530,7 +542,7 @@ NP_FUNCS = {
     'numpy.linalg.norm': lambda v, axis=None, keepdims=False, **k: (np.expand_dims(_norm_axis(v, axis), int(axis)) if (keepdims and axis is not None) else _norm_axis(v, axis)),
     'numpy.linalg.det': lambda a: _mat(a).det(), 'numpy.linalg.inv': lambda a: _unmat(_mat(a).inv()),
     'numpy.linalg.solve': lambda a, b: _unmat(_mat(a).solve(_mat(b))) if np.ndim(b) == 2 else arr(list(_mat(a).solve(sp.Matrix(list(b))))),
-    'numpy.isclose': _isclose, 'numpy.allclose': lambda a, b, **k: _all(_isclose(a, b)),
+    'numpy.isclose': _isclose, 'numpy.allclose': lambda a, b, *ar, **k: _all(_isclose(a, b, *ar, **k)),
     'numpy.diag': lambda a: arr(sp.diag(*list(a)).tolist()) if np.ndim(a) == 1 else np.diagonal(a),
     'numpy.stack': lambda xs, axis=0: np.stack([np.asarray(x, dtype=object) for x in xs], axis=axis),
     'numpy.vstack': lambda xs: np.vstack([np.asarray(x, dtype=object) for x in xs]),
@@ -1753,6 +1765,16 @@ class SymEval:
         load = ast.copy_location(_as_load(s.target), s.target)
         cur = self.ev(load, p)
         v = self.ev(s.value, p)
+        if is_arr(cur) and cur.dtype == object and cur.ndim >= 1:
+            # ndarray op= is in place: every other name bound to the same array sees the change
+            res = np.asarray(BIN[type(s.op)](cur, v), dtype=object)
+            if res.shape != cur.shape:
+                raise WouldRaise('ValueError: non-broadcastable output operand with shape %s in %s' % (cur.shape, norm(s)))
+            cur[...] = res
+            return [p]
+        if isinstance(cur, list) and isinstance(s.op, ast.Add) and isinstance(v, (list, tuple)):
+            cur.extend(v)
+            return [p]
         self.assign(s.target, BIN[type(s.op)](cur, v), p)
         return [p]
 
